@@ -28,7 +28,8 @@ ASSUMPTIONS = [
     "names are served as quoted strings and bodies as literals (other encodings are C17's)",
 ]
 EXHAUSTIVE = {"quick": True, "thorough": True}
-FLOORS = {"quick": {"cases": 4000, "faulted-cases": 3500, "true-results": 100},
+FLOORS = {"quick": {"cases": 4000, "faulted-cases": 3500, "true-results": 100,
+                    "cases-with-look-alike-status-texts": 500},
           "thorough": {"cases": 23000, "faulted-cases": 22000, "true-results": 200}}
 SHARD_TIMEOUT = {"quick": 600, "thorough": 3000}
 
@@ -99,11 +100,12 @@ def plan(tier, seed):
     n = len(all_cases(tier))
     shards = [{"w": "enum", "range": [s, e], "variant": "plain"}
               for s, e in split(n, 16 if tier == "quick" else 48)]
-    if tier == "thorough":
-        # the same exhaustive product once more with status texts encoded at random
-        # (quoted / literal) and random recv() segmentation
-        shards += [{"w": "enum", "range": [s, e], "variant": "mixed", "rs": seed * 7919 + i}
-                   for i, (s, e) in enumerate(split(n, 48))]
+    # the same exhaustive product once more with status texts encoded at random (quoted /
+    # literal; every other case: texts that look like protocol lines, sent as literals) and
+    # random recv() segmentation; quick takes every 4th case of it
+    shards += [{"w": "enum", "range": [s, e], "variant": "mixed", "rs": seed * 7919 + i,
+                "stride": 1 if tier == "thorough" else 4}
+               for i, (s, e) in enumerate(split(n, 48 if tier == "thorough" else 8))]
     return shards
 
 
@@ -168,6 +170,10 @@ def run_case(case, res: Result, rng=None, probe=False):
     if rng is not None:
         srv.rng = random.Random(rng.randrange(1 << 30))
         srv.how = lambda srv=srv: srv.rng.choice(["quoted", "literal"])
+        if rng.random() < 0.5:
+            srv.lookalike_texts = True
+            if not probe:
+                res.count("cases-with-look-alike-status-texts")
         _list = srv.do_listscripts
 
         def do_list(args, srv=srv):
@@ -269,7 +275,7 @@ def run_shard(tier, shard, res: Result):
     cases = all_cases(tier)
     s, e = shard["range"]
     rng = random.Random(shard["rs"]) if shard.get("variant") == "mixed" else None
-    for i in range(s, e):
+    for i in range(s, e, shard.get("stride", 1)):
         run_case(cases[i], res, rng)
         if i % 487 == 0:
             st, bi, plan_ = cases[i][:3]
